@@ -240,20 +240,43 @@ def check_qf_first(assertions, timeout_ms, rounds=2):
     return 'unknown', 'full', None
 
 
+def expand_all(f, terms, cache=None):
+    """replace every quantifier inside f by its finite expansion over `terms`"""
+    if cache is None:
+        cache = {}
+    k = f.get_id()
+    if k in cache:
+        return cache[k][1]
+    if not has_quant(f):
+        r = f
+    elif z3.is_quantifier(f):
+        nv = f.num_vars()
+        body = f.body()
+        if any(f.var_sort(i).kind() != z3.Z3_INT_SORT for i in range(nv)):
+            r = f
+        else:
+            insts = [expand_all(z3.substitute_vars(body, *reversed(combo)), terms, cache)
+                     for combo in itertools.product(terms, repeat=nv)]
+            r = z3.And(*insts) if f.is_forall() else z3.Or(*insts)
+    elif z3.is_app(f):
+        r = f.decl()(*[expand_all(c, terms, cache) for c in f.children()])
+    else:
+        r = f
+    cache[k] = (f, r)
+    return r
+
+
 def bounded_expand(assertions, size_syms, bound):
-    """candidate-model search: constrain every size symbol to <= bound and expand universals over
-    0..bound (range guards inside the bodies take care of the rest)."""
+    """candidate-model search: constrain every size symbol to <= bound and expand all quantifiers (also
+    nested ones) over -1..bound+1; range guards inside the bodies take care of the rest."""
     fs = split_conj(nnf_skolem(assertions))
     terms = [z3.IntVal(k) for k in range(-1, bound + 2)]
     out = []
+    cache = {}
     for f in fs:
-        if z3.is_quantifier(f) and f.is_forall():
-            for inst in instantiate(f, terms, 4000):
-                inst = z3.simplify(inst)
-                if not z3.is_true(inst) and not has_quant(inst):
-                    out.append(inst)
-        elif not has_quant(f):
-            out.append(f)
+        g = z3.simplify(expand_all(f, terms, cache))
+        if not z3.is_true(g):
+            out.append(g)
     for sname in size_syms:
         out.append(z3.Int(sname) <= bound)
     return out
